@@ -216,7 +216,8 @@ class Program(object):
                 isinstance(param, ListParameter)
                 and isinstance(param.value_type, ResultParameter)
             ):
-                return str(value)
+                # A reference is written as the result name, also when the argument holds the command itself
+                return value.result_name if isinstance(value, Command) else str(value)
             if isinstance(value, six.string_types):
                 return quote(value)
             elif isinstance(value, float) and "e" in repr(value) and "." not in repr(value):
